@@ -1,6 +1,7 @@
 package main
 
 import (
+	"fmt"
 	"go/ast"
 )
 
@@ -18,6 +19,9 @@ func genGroups() *leanFile {
 	l.cmp("epochAddCmp", groupsGo, "consumerGroup.AddMember", "epoch ? c.epoch", 0, "lt")
 	l.cmp("epochRemoveCmp", groupsGo, "consumerGroup.RemoveMember", "epoch ? c.epoch", 0, "lt")
 	l.cmp("epochDeletedCmp", groupsGo, "consumerGroup.StreamDeleted", "epoch ? c.epoch", 0, "lt")
+	// StreamDeleted returns before touching the epoch when the stream's subscriber heap is empty (fix abd9059)
+	emptyKeeps := anyHas(condTexts(groupsGo, "consumerGroup.StreamDeleted"), "!ok || len(*subscribers) == 0")
+	l.def("emptyHeapKeepsEpoch", "Bool", fmt.Sprint(emptyKeeps), "if !ok || len(*subscribers) == 0 { delete(c.subscribers, stream); return nil }")
 	// consumerHeap.Less: `if c[i].assignedCount == c[j].assignedCount { return c[i].id < c[j].id };
 	// return c[i].assignedCount < c[j].assignedCount` — two textual matches of the count
 	// comparison, in source order.
